@@ -27,7 +27,7 @@ ASSUMPTIONS = ["fewer than 2^15 messages are submitted per direction (exactly-on
 
 
 def route(case):
-    return "disp" if case.startswith("disp") else "chan"
+    return "disp" if case.startswith(("disp", "sccrq")) else "chan"
 
 
 ORIGINS = [0, 0, 1, 0x7ffd, 0x7ffe, 0x7fff, 0x8000, 0x8001, 0xfffc, 0xfffd, 0xfffe, 0xffff]
@@ -165,6 +165,9 @@ def gen_cases(rng, tier, budget):
     for _ in range(200 if quick else 5000):
         cases.append("seqless %d %d" % (rng.randrange(65536), rng.randrange(65536)))
     cases += gen_disp(rng, 150 if quick else 2000)
+    for ns in [0, 1, 2, 0x7fff, 0x8000, 0xffff]:
+        for nr in [0, 1, 0x8000]:
+            cases.append("sccrq %d %d" % (ns, nr))
     nrand = (budget or 2500) if quick else (budget or 40000)
     profs = sorted(PROFILES)
     for i in range(nrand):
